@@ -75,6 +75,13 @@ func main() {
 			}
 			obs := r.run(raw)
 			writeCase(out, *ename, g.emitted, raw, obs)
+			if hung { // the case never returned: report it and stop this shard (its goroutine still runs)
+				out.Flush()
+				if *stats != "" {
+					g.writeStats(*stats)
+				}
+				os.Exit(0)
+			}
 		}
 		eng.Gen(g)
 		if *stats != "" {
